@@ -565,7 +565,7 @@ func main() {
 			"FileSink write faults are injected through a symbolic link to /dev/full (persistent ENOSPC); a fault on the first write followed by a successful retry is not reachable this way and is not covered",
 			"timeouts are modelled timers fired by a harness thread (virtual clock); 'never blocking longer than the shorter of the two' = once the timer fired or the context is done Process returns without any other thread's help",
 		},
-		QuickBudget:    150 * time.Second,
+		QuickBudget:    300 * time.Second,
 		ThoroughBudget: 30 * time.Minute,
 	})
 }
